@@ -19,6 +19,16 @@
 // the events in order; ev = s<pattern> | l | n (a poll as above) or c<allowed>;<presumed>
 // (InstallBridgeListProfile with new patterns, as on SIGHUP).  Result: the comma list of the
 // per-event results ("installed" for c), each poll observed exactly as in the single-shot case.
+//
+//   namematcher gate <allowed> <presumed> <ev,ev,...>     ev = p:<nat u|r|k>:<clients>:<kind s|l|n>:<pattern> | c:<nat>
+//   namematcher bseq <allowed> <presumed> <ev,ev,...>     ev = b:<body>:<jv> | i:<allowed>:<presumed> | c:<nat>
+//
+// Histories of the gated matching machine (coq/Model/BrokerGate.v grun / brun, adapters in
+// coq/Run/NameMatcherGate.v): ONE BrokerContext; polls stay registered while later events arrive; a client
+// offer (c) is sent through IPC.ClientOffers, the poll that is handed it is identified, its answer is posted
+// and the client is awaited.  b = the request body as given (bytes), through the real decoder.  Result: per
+// event registered | rejected | badrequest | installed | served:<position of the poll> | noproxies, then
+// avail=<len(idToSnowflake)> heap=<both heaps> (bseq: with= without= rej= the three relay-extension counters).
 package main
 
 import (
@@ -27,6 +37,7 @@ import (
 	"io"
 	"log"
 	"os"
+	"strconv"
 	"strings"
 	"testing"
 	"time"
@@ -253,6 +264,190 @@ func verifC06PollOn(ctx *BrokerContext, kind, pattern string) string {
 	return "reject"
 }
 
+type verifC06Pending struct {
+	k    int
+	sid  string
+	done chan verifC06PollResult
+}
+
+var verifC06NatNames = map[string]string{"u": NATUnrestricted, "r": NATRestricted, "k": NATUnknown}
+
+func verifC06Keys(ctx *BrokerContext) map[string]bool {
+	ctx.snowflakeLock.Lock()
+	defer ctx.snowflakeLock.Unlock()
+	m := make(map[string]bool, len(ctx.idToSnowflake))
+	for k := range ctx.idToSnowflake {
+		m[k] = true
+	}
+	return m
+}
+
+// one poll of a history: the body goes through IPC.ProxyPolls; "registered" as soon as a new sid shows in idToSnowflake
+func verifC06HistPoll(ctx *BrokerContext, k int, body []byte, pending *[]*verifC06Pending) string {
+	i := &IPC{ctx}
+	before := verifC06Keys(ctx)
+	done := make(chan verifC06PollResult, 1)
+	go func() {
+		var resp []byte
+		err := i.ProxyPolls(messages.Arg{Body: body, RemoteAddr: "192.0.2.55:4321"}, &resp)
+		done <- verifC06PollResult{resp, err}
+	}()
+	deadline := time.Now().Add(8 * time.Second)
+	for {
+		select {
+		case res := <-done:
+			after := verifC06Keys(ctx)
+			for sid := range after {
+				if !before[sid] {
+					return "returned-but-registered"
+				}
+			}
+			if res.err == messages.ErrBadRequest {
+				return "badrequest"
+			}
+			if res.err != nil {
+				return "ipc-error"
+			}
+			offer, _, _, derr := messages.DecodePollResponseWithRelayURL(res.resp)
+			if offer != "" {
+				return "unregistered-but-offer"
+			}
+			if derr == nil {
+				return "idle"
+			}
+			return "rejected"
+		default:
+		}
+		for sid := range verifC06Keys(ctx) {
+			if !before[sid] {
+				*pending = append(*pending, &verifC06Pending{k: k, sid: sid, done: done})
+				return "registered"
+			}
+		}
+		if time.Now().After(deadline) {
+			return "stuck"
+		}
+		time.Sleep(20 * time.Microsecond)
+	}
+}
+
+// one client offer of a history, served to the end
+func verifC06HistClient(ctx *BrokerContext, k int, nat string, pending *[]*verifC06Pending) string {
+	i := &IPC{ctx}
+	sdp := fmt.Sprintf("verif-offer-%d", k)
+	answer := fmt.Sprintf("verif-answer-%d", k)
+	clientDone := make(chan [2]string, 1)
+	go func() {
+		a, e := verifC06ClientOffer(i, sdp, nat)
+		clientDone <- [2]string{a, e}
+	}()
+	deadline := time.Now().Add(8 * time.Second)
+	for {
+		select {
+		case c := <-clientDone:
+			if c[0] == "" && c[1] == messages.StrNoProxies {
+				return "noproxies"
+			}
+			return "client-returned-early"
+		default:
+		}
+		for idx, p := range *pending {
+			select {
+			case res := <-p.done:
+				*pending = append((*pending)[:idx:idx], (*pending)[idx+1:]...)
+				if res.err != nil {
+					return "poll-ipc-error"
+				}
+				offer, _, relayURL, derr := messages.DecodePollResponseWithRelayURL(res.resp)
+				if derr != nil || offer == "" {
+					return fmt.Sprintf("poll-%d-returned-without-offer", p.k)
+				}
+				if offer != sdp {
+					return "poll-got-another-offer"
+				}
+				if relayURL != "wss://02.snowflake.torproject.net/" {
+					return "relay-url-is-not-the-bridge-of-the-client"
+				}
+				ans, _ := messages.EncodeAnswerRequest(answer, p.sid)
+				var aresp []byte
+				go i.ProxyAnswers(messages.Arg{Body: ans, RemoteAddr: "192.0.2.55:4321"}, &aresp)
+				select {
+				case c := <-clientDone:
+					if c[0] != answer {
+						return "client-got-no-answer"
+					}
+				case <-time.After(8 * time.Second):
+					return "client-stuck"
+				}
+				return fmt.Sprintf("served:%d", p.k)
+			default:
+			}
+		}
+		if time.Now().After(deadline) {
+			return "client-stuck"
+		}
+		time.Sleep(20 * time.Microsecond)
+	}
+}
+
+func verifC06Hist(viaBody bool, allowed, presumed string, events []string) string {
+	ctx := verifC06NewContext(allowed, presumed)
+	defer close(ctx.proxyPolls)
+	verifC06Seq++
+	var pending []*verifC06Pending
+	var out []string
+	for n, ev := range events {
+		k := n + 1
+		f := strings.Split(ev, ":")
+		switch {
+		case f[0] == "c" && len(f) == 2 && verifC06NatNames[f[1]] != "":
+			out = append(out, verifC06HistClient(ctx, k, verifC06NatNames[f[1]], &pending))
+		case !viaBody && f[0] == "p" && len(f) == 5 && verifC06NatNames[f[1]] != "":
+			clients, err := strconv.Atoi(f[2])
+			if err != nil {
+				return "!badcase"
+			}
+			sid := fmt.Sprintf("verif-h%d-%d", verifC06Seq, k)
+			var body []byte
+			switch f[3] {
+			case "s":
+				body, err = messages.EncodeProxyPollRequestWithRelayPrefix(sid, "standalone", verifC06NatNames[f[1]], clients, verifC06Str(f[4]))
+			case "l":
+				body, err = json.Marshal(verifC06LegacyPoll{Sid: sid, Version: "1.2", Type: "standalone", NAT: verifC06NatNames[f[1]], Clients: clients})
+			case "n":
+				body, err = json.Marshal(verifC06NullPoll{Sid: sid, Version: "1.3", Type: "standalone", NAT: verifC06NatNames[f[1]], Clients: clients})
+			default:
+				return "!badcase"
+			}
+			if err != nil {
+				panic(err)
+			}
+			out = append(out, verifC06HistPoll(ctx, k, body, &pending))
+		case viaBody && f[0] == "b" && len(f) == 3:
+			out = append(out, verifC06HistPoll(ctx, k, []byte(verifC06Str(f[1])), &pending))
+		case viaBody && f[0] == "i" && len(f) == 3:
+			if err := ctx.InstallBridgeListProfile(strings.NewReader(verifC06Bridges), verifC06Str(f[1]), verifC06Str(f[2])); err != nil {
+				panic(err)
+			}
+			out = append(out, "installed")
+		default:
+			return "!badcase"
+		}
+	}
+	ctx.snowflakeLock.Lock()
+	avail := len(ctx.idToSnowflake)
+	heapLen := ctx.snowflakes.Len() + ctx.restrictedSnowflakes.Len()
+	ctx.snowflakeLock.Unlock()
+	res := fmt.Sprintf("%s avail=%d heap=%d", wire.PrintList(out), avail, heapLen)
+	if viaBody {
+		ctx.metrics.lock.Lock()
+		res += fmt.Sprintf(" with=%d without=%d rej=%d", ctx.metrics.proxyPollWithRelayURLExtension,
+			ctx.metrics.proxyPollWithoutRelayURLExtension, ctx.metrics.proxyPollRejectedWithRelayURLExtension)
+		ctx.metrics.lock.Unlock()
+	}
+	return res
+}
+
 func TestVerifDriverC06(t *testing.T) {
 	if os.Getenv("VERIF_DRIVER") != "1" {
 		t.Skip("driver mode only")
@@ -261,6 +456,9 @@ func TestVerifDriverC06(t *testing.T) {
 	wire.Loop(func(args []string) string {
 		if len(args) == 5 && args[0] == "poll" {
 			return verifC06Poll(verifC06Str(args[1]), verifC06Str(args[2]), args[3], verifC06Str(args[4]))
+		}
+		if len(args) == 4 && (args[0] == "gate" || args[0] == "bseq") {
+			return verifC06Hist(args[0] == "bseq", verifC06Str(args[1]), verifC06Str(args[2]), wire.List(args[3]))
 		}
 		if len(args) == 4 && args[0] == "pollseq" {
 			return verifC06PollSeq(verifC06Str(args[1]), verifC06Str(args[2]), wire.List(args[3]))
